@@ -1407,6 +1407,11 @@ func (d *TD) playHand(plan *HandPlan) string {
 			held := -1
 			if plan.WithholdAns == phase && len(asked) > 0 {
 				held = asked[len(asked)-1]
+				// announced BEFORE anybody answers: the state recorded here is the one that must still stand when the
+				// withheld answer is finally given (repeated answers of the others must not stand in for it)
+				a := mkArgs()
+				a.Note, a.Amt, a.Kind, a.ID = "withheld:"+phase, int64(plan.WithholdMs), need, d.idOfGameIdx(held)
+				d.rec.Emit("withhold", a, "", d.te, nil, nil, false)
 			}
 			d.hmu.Lock()
 			earlier := d.early[gs.Status.CurrentEvent]
@@ -1440,7 +1445,6 @@ func (d *TD) playHand(plan *HandPlan) string {
 			if held >= 0 {
 				a := mkArgs()
 				a.Note, a.Amt, a.Kind = "withheld:"+phase, int64(plan.WithholdMs), need
-				d.rec.Emit("withhold", a, "", d.te, nil, nil, false)
 				time.Sleep(time.Duration(plan.WithholdMs) * time.Millisecond)
 				d.settle()
 				d.rec.Emit("withheld", a, "", d.te, nil, nil, false)
